@@ -91,7 +91,13 @@ func fnDecr(ctx *cmdContext, args map[string]any) (output respValue, err error) 
 }
 
 func fnDecrBy(ctx *cmdContext, args map[string]any) (output respValue, err error) {
-	return keyAdd(ctx, args["key"].(string), -args["decrement"].(int64))
+	decrement := args["decrement"].(int64)
+	if decrement == math.MinInt64 {
+		// -decrement is not representable (it would wrap back to the same negative number)
+		output.data = respErrorString("ERR decrement would overflow")
+		return
+	}
+	return keyAdd(ctx, args["key"].(string), -decrement)
 }
 
 func fnGet(ctx *cmdContext, args map[string]any) (output respValue, err error) {
